@@ -1,6 +1,6 @@
 (* C16 — property theorems only (proved in C16/Proofs*.v), instantiated with the constants
    re-extracted from the headers on this run (gen/Params_C16.v). *)
-From MV Require Import C16.Model C16.ProofsSeq C16.ProofsSync C16.ProofsAsync gen.Params_C16.
+From MV Require Import C16.Model C16.ProofsSeq C16.ProofsSync C16.ProofsAsync C16.ProofsAcct gen.Params_C16.
 Local Open Scope Z_scope.
 
 (* side condition on the extracted constant: the buffer has room for one byte and the NUL *)
@@ -113,39 +113,84 @@ Proof.
 Qed.
 Print Assumptions async_equals_sync.
 
-(* FULL STATEMENT (async_destroy_drains): when destroy has returned, a_consumed s = a_accepted s
-   and every accepted message is written.  Proved part: when destroy has returned the writer
-   thread has left through the sentinel, no line is in progress, and every message it took is on
-   every accepting handler's stream, whole, in queue order; accepted = taken ++ still queued.
-   GAP: "no message is queued behind the sentinel" (msgs_of (a_queue s) = []), which needs the
-   counting invariant a_remaining = number of producers still logging. *)
-Theorem async_destroy_drains_partial : forall fixed A sched,
-  let s := exec asys (astep fixed A) (ainit A) sched in
+(* Repaired code, any number of producers (at least one), calls, handlers and any usable
+   capacity, every schedule: when destroy has returned the queue is empty, the writer thread
+   has exited through the sentinel, everything the channel accepted has been taken, and every
+   accepting handler's stream holds exactly those lines, whole, in queue order.  (Rests on the
+   counting invariant a_remaining = number of producers still logging and "the sentinel is the
+   last thing ever queued", C16/ProofsAcct.v.) *)
+Theorem async_destroy_drains : forall A sched, (1 <= as_n A)%nat ->
+  let s := exec asys (astep true A) (ainit A) sched in
   a_destroyed s = true ->
-  cexited (a_cons s) = true /\
-  a_accepted s = a_consumed s ++ msgs_of (a_queue s) /\
-  forall i, whole (a_out s i) /\ lines_of (a_out s i) = filter (macc A i) (a_consumed s).
-Proof. exact destroyed_all_written. Qed.
-Print Assumptions async_destroy_drains_partial.
+  a_queue s = [] /\ a_consumed s = a_accepted s /\ cexited (a_cons s) = true /\
+  forall i, whole (a_out s i) /\ lines_of (a_out s i) = filter (macc A i) (a_accepted s).
+Proof. exact destroy_drains. Qed.
+Print Assumptions async_destroy_drains.
 
-(* FULL STATEMENT (async_no_leak_on_full): in every final state a_live s = 0.  Proved part
-   (repaired code): a producer whose message the full queue refused releases both allocations
-   and records the drop before its next call, touching neither the queue nor the accepted list;
-   plus a complete concrete history with two refusals ending with nothing outstanding and
-   destroy returned.  GAP: the global accounting invariant
-   live = 2 + 2 * queued + held by producers + held by the writer thread (a sum over threads). *)
-Theorem async_no_leak_on_full_partial :
-  (forall A s t k, p_pc (a_thr s t) = PUnlock true -> p_k (a_thr s t) = k ->
-     exists s1 l1 s2 l2 s3 l3,
-       pstep true A s t = Some (s1, l1) /\ pstep true A s1 t = Some (s2, l2) /\ pstep true A s2 t = Some (s3, l3) /\
-       a_live s3 = pred (pred (a_live s)) /\ a_dropped s3 = a_dropped s ++ [(t, k)] /\
-       a_thr s3 t = p_next A k /\ a_queue s3 = a_queue s /\ a_accepted s3 = a_accepted s) /\
+(* Repaired code, every schedule: the tracked allocations outstanding are at every moment
+   exactly the channel's two blocks (until the destroying thread takes them over), two per
+   queued message, those of the message the writer thread is handling and those each producer
+   owns at its program point (a message refused by the full queue is owned by its producer
+   until released) — and once destroy has returned nothing is outstanding.  The second part
+   is the concrete history with two refusals (non-vacuity). *)
+Theorem async_no_leak_on_full :
+  (forall A sched, (1 <= as_n A)%nat ->
+     let s := exec asys (astep true A) (ainit A) sched in
+     a_live s = (chan_base s + 2 * length (msgs_of (a_queue s)) + cheld (a_cons s)
+                 + tsum (fun u => owned (pcs s u)) (as_n A))%nat /\
+     (a_destroyed s = true -> a_live s = 0%nat)) /\
   (let s := exec asys (astep true ex_ascen) (ainit ex_ascen) ex_sched in
    a_dropped s = [(1, 2); (1, 3)]%nat /\ a_live s = 0%nat /\ a_destroyed s = true /\
    a_cons s = CEnd /\ p_pc (a_thr s 1%nat) = PEnd /\ a_consumed s = a_accepted s /\
    lines_of (a_out s 0%nat) = [(1, 0); (1, 1)]%nat).
-Proof. split; [exact refused_message_released|exact repaired_witness]. Qed.
-Print Assumptions async_no_leak_on_full_partial.
+Proof. split; [exact no_leak|exact repaired_witness]. Qed.
+Print Assumptions async_no_leak_on_full.
+
+(* Known finding async-capacity-unusable (DESIGN.md 3.2).  in_known_class A = (usable capacity
+   of the channel is 0), i.e. channel_capacity <= 2.
+   FULL STATEMENT: destroy returns (under a fair scheduler) for every configuration.
+   Proved outside the class (safety core; termination under fairness is not formalised):
+   whenever the sentinel is about to be refused there are messages for the writer thread to
+   take, the writer thread has not exited and is not asleep without a wake-up on its way —
+   so every refusal leaves a productive step of another thread; and a concrete configuration
+   outside the class on which destroy does return. *)
+Theorem async_destroy_returns_partial :
+  (forall A sched t, in_known_class A = false -> (1 <= as_n A)%nat ->
+     let s := exec asys (astep true A) (ainit A) sched in
+     pcs s t = PDTry -> (as_usable A <= length (a_queue s))%nat ->
+     a_queue s <> [] /\ csent (a_cons s) = false /\
+     (a_cons s = CBlocked -> exists u, pending_wake (pcs s u) = true)) /\
+  (in_known_class ex_ascen = false /\ destroy_can_return ex_ascen).
+Proof.
+  split.
+  - intros A sched t Hc Hn. apply refusal_has_work; assumption.
+  - split; [reflexivity|]. exists ex_sched. apply repaired_witness.
+Qed.
+Print Assumptions async_destroy_returns_partial.
+
+(* Inside the class destroy never returns, under any schedule; witness (capacity 2, one
+   producer, one call): the call is refused and released, then the sentinel is refused with an
+   EMPTY queue while the writer thread sleeps, no other thread can move, and four steps later
+   the destroying thread is at the same point again with nothing changed (the retry loop is
+   all that is left). *)
+Theorem async_destroy_returns_refuted :
+  exists A, in_known_class A = true /\ ~ destroy_can_return A /\
+  let s := exec asys (astep true A) (ainit A) ex_unusable_sched in
+  pcs s 1%nat = PDTry /\ (as_usable A <= length (a_queue s))%nat /\ a_queue s = [] /\
+  a_cons s = CBlocked /\ a_dropped s = [(1, 0)]%nat /\ a_live s = 2%nat /\ a_destroyed s = false /\
+  (forall u, u <> 1%nat -> astep true A s u 0%nat = None).
+Proof.
+  exists ex_unusable. destruct unusable_witness as (Hc & Hw). split; [exact Hc|]. split.
+  - intros [sched Hd]. rewrite (unusable_never_returns ex_unusable sched Hc) in Hd. discriminate.
+  - destruct Hw as (H1 & H2 & H3 & H4 & H5 & H6 & H7 & H8 & _). repeat split; assumption.
+Qed.
+Print Assumptions async_destroy_returns_refuted.
+
+(* in the class this holds for every configuration and schedule *)
+Theorem async_unusable_capacity_never_returns : forall A sched, in_known_class A = true ->
+  a_destroyed (exec asys (astep true A) (ainit A) sched) = false.
+Proof. exact unusable_never_returns. Qed.
+Print Assumptions async_unusable_capacity_never_returns.
 
 (* The code as first found: a history (one producer bursting past the queue capacity while the
    writer thread does not run, then destroy) after which two messages are leaked (6 allocations
